@@ -61,6 +61,7 @@ type w1RdSess struct {
 	premoveCall, premoveRet int64
 	premoveCallT            time.Duration
 	datas                   []simrt.Ev
+	fillers                 []int64 // seqs at which the reader received filler units of an always-available stream
 	readds                  [][3]int64 // call, ret, failedWithMax
 	errSeq                  int64
 }
@@ -229,6 +230,10 @@ func w1Parse(ev []simrt.Ev) *w1Hist {
 		case "rd.data":
 			if r := h.rdByNm[e.A]; r != nil {
 				r.datas = append(r.datas, e)
+			}
+		case "rd.filler":
+			if r := h.rdByNm[e.A]; r != nil {
+				r.fillers = append(r.fillers, e.Seq)
 			}
 		case "rd.err":
 			if r := h.rdByNm[e.A]; r != nil {
@@ -538,11 +543,94 @@ func w1C16(h *w1Hist, body *w1Body, v *w1Viol) {
 			}
 		}
 	}
+	// (c) a reader's queue is first-in first-out, and whatever a publisher let into the stream
+	// legitimately entered it before the completion of its replacement/removal: once a reader has
+	// received a unit whose write began after that completion (so, from a successor), a unit of
+	// the replaced publisher reaching it was let into the stream afterwards
+	byName := map[string]*w1PubSess{}
+	for _, p := range oks {
+		byName[p.name] = p
+	}
+	for _, r := range h.rds {
+		latestBegin := map[*w1PubSess]int64{} // per session: latest write begin among the units r received so far
+		latestUnit := map[*w1PubSess]int64{}
+	deliveries:
+		for _, d := range r.datas {
+			w := h.wrIndex[[2]int64{d.K, d.N}]
+			if w == nil {
+				continue
+			}
+			p := byName[w.who]
+			if p == nil || p.path != r.path {
+				continue
+			}
+			if c := h.completion(p); c != w1Inf {
+				for q, bq := range latestBegin {
+					if q != p && bq > c {
+						v.add("C16", "stale-data-after-successor",
+							"reader %s received unit %d of publisher %s after unit %d of publisher %s, whose write began (seq %d) after the replacement/removal of %s had completed (seq %d)",
+							r.name, w.serial, p.name, latestUnit[q], q.name, bq, p.name, c)
+						break deliveries
+					}
+				}
+			}
+			if w.begin > latestBegin[p] {
+				latestBegin[p], latestUnit[p] = w.begin, w.serial
+			}
+		}
+	}
+	// (d) always-available streams: the offline filler runs only while nobody publishes, and it is
+	// started after a publisher has been cut off: a unit of a publisher that reaches a reader
+	// after a filler unit that itself followed units of that publisher entered the stream after
+	// the publisher had been replaced or removed
+	for _, r := range h.rds {
+		if len(r.fillers) == 0 {
+			continue
+		}
+		first := map[*w1PubSess]int64{} // seq of the first unit of the session received by r
+		fi := 0
+	units:
+		for _, d := range r.datas {
+			w := h.wrIndex[[2]int64{d.K, d.N}]
+			if w == nil {
+				continue
+			}
+			p := byName[w.who]
+			if p == nil || p.path != r.path {
+				continue
+			}
+			f0, seen := first[p]
+			if !seen {
+				first[p] = d.Seq
+				continue
+			}
+			for fi < len(r.fillers) && r.fillers[fi] < f0 {
+				fi++
+			}
+			for j := fi; j < len(r.fillers) && r.fillers[j] < d.Seq; j++ {
+				if r.fillers[j] > f0 {
+					v.add("C16", "stale-data-after-filler",
+						"reader %s received unit %d of publisher %s (seq %d) after a filler unit of the offline stream (seq %d) that followed earlier units of %s (first at seq %d): the filler only runs once the publisher has been cut off",
+						r.name, w.serial, p.name, d.Seq, r.fillers[j], p.name, f0)
+					break units
+				}
+			}
+		}
+	}
 }
 
 // ---- C17
 
 func w1C17(h *w1Hist, body *w1Body, v *w1Viol) {
+	// "units written by the current publisher": a unit of a replaced publisher that reaches a
+	// reader after its successor's (or after the offline filler that followed it) is not one
+	tmp := &w1Viol{seen: map[string]bool{}}
+	w1C16(h, body, tmp)
+	for _, x := range tmp.out {
+		if strings.HasPrefix(x.Clause, "stale-data-after-") {
+			v.add("C17", "unit-of-replaced-publisher", "%s", x.Detail)
+		}
+	}
 	subs := map[string]map[int64]bool{}
 	for i, a := range body.Actors {
 		if a.Kind == "rd" {
@@ -592,7 +680,7 @@ func w1C17(h *w1Hist, body *w1Body, v *w1Viol) {
 			}
 			writer = w.who
 		}
-		if writer == "" || r.sremRet == 0 {
+		if writer == "" || r.sremRet == 0 || w1Always(body, r.path) {
 			continue
 		}
 		// conservation. Interior gaps: units of a subscribed format written by the
@@ -635,6 +723,18 @@ func w1C17(h *w1Hist, body *w1Body, v *w1Viol) {
 				"reader %s counts %d discarded units although at most %d units were written to it and its queue holds %d", r.name, r.discarded, maybe, body.QueueSize)
 		}
 	}
+}
+
+// w1Always reports whether the name can belong to an always-available path in some version of the run:
+// its stream outlives publishers (an offline filler takes over), so "the stream went away" clauses and the
+// per-writer conservation of C17 do not apply to it.
+func w1Always(body *w1Body, name string) bool {
+	for i := range body.Versions {
+		if p := w1Resolve(&body.Versions[i], name); p != nil && p.Always {
+			return true
+		}
+	}
+	return false
 }
 
 // ---- C18
@@ -737,7 +837,7 @@ func w1C18(h *w1Hist, body *w1Body, v *w1Viol) {
 	// leave by itself before the completion of X's removal/replacement must have
 	// been closed before that completion
 	for _, p := range h.pubs {
-		if !p.ok {
+		if !p.ok || w1Always(body, p.path) {
 			continue
 		}
 		c := h.completion(p)
@@ -1142,7 +1242,7 @@ func w1C39(h *w1Hist, body *w1Body, v *w1Viol, completed bool) {
 	mustStop := map[*w1PubSess]map[string]bool{}
 	for _, e := range h.ev {
 		if e.Kind == "pub.remove.call" {
-			if ps := pubByRemoveCall[e.Seq]; ps != nil {
+			if ps := pubByRemoveCall[e.Seq]; ps != nil && !w1Always(body, ps.path) {
 				if st := cur[ps.path]; st != nil {
 					m := map[string]bool{}
 					for id, r := range st.running {
